@@ -9,6 +9,7 @@ import (
 	"io/fs"
 	"os"
 	"path/filepath"
+	"reflect"
 	"regexp"
 	"sync"
 	"time"
@@ -1185,7 +1186,9 @@ func (db *DB) Repair(of Object) (err error) {
 			continue
 		}
 
-		if o, err = db.getByUUID(of, uuid); err != nil {
+		// objects are read in a fresh value: decoding several files in the
+		// same one would mix their content (maps keep their entries)
+		if o, err = db.getByUUID(reflect.New(typeof(of)).Interface().(Object), uuid); err != nil {
 			return
 		}
 
